@@ -128,6 +128,8 @@ class Field:
     rng: Optional[Tuple[float, float]] = None
     # order in which unit / range params are written ("ur" or "ru")
     param_order: str = "ur"
+    # extra params written verbatim (token lists) — only used for out-of-domain inputs (C11)
+    raw_params: Optional[List[List[str]]] = None
 
 
 @dataclass
